@@ -78,6 +78,7 @@ func shardC19(c *Ctx, shard, nshards int) {
 			c19Reuse(c, i)
 		}
 	}
+	c19Special(c, shard, nshards)
 	for i := 0; i < n; i++ {
 		if i%nshards != shard {
 			continue
@@ -331,4 +332,84 @@ func maxInt2(a, b int) int {
 		return a
 	}
 	return b
+}
+
+// c19Special: (a) surfaces passing exactly through grid vertices (sampled box exactly 2x / 4x the shape, power-of-two cells),
+// (b) very high resolutions along one axis (cell indices beyond 1024).
+func c19Special(c *Ctx, shard, nshards int) {
+	type sp struct {
+		name  string
+		s     sdf.SDF3
+		box   sdf.Box3
+		cells int
+		rd    string
+		vol   float64
+	}
+	var cases []sp
+	for _, sz := range []float64{0.6, 1.4, 0.3, 0.7, 1.0} {
+		for _, f := range []float64{2, 4} {
+			for _, cells := range []int{16, 32} {
+				b, _ := sdf.Box3D(v3.Vec{X: sz, Y: sz, Z: sz}, 0)
+				h := sz * f / 2
+				box := sdf.Box3{Min: v3.Vec{X: -h, Y: -h, Z: -h}, Max: v3.Vec{X: h, Y: h, Z: h}}
+				for _, rd := range []string{"v1", "v2"} {
+					cases = append(cases, sp{fmt.Sprintf("cube %g in a box exactly %gx its size", sz, f), b, box, cells, rd, sz * sz * sz})
+				}
+			}
+		}
+	}
+	for _, rad := range []float64{0.3, 1.0} {
+		sph, _ := sdf.Sphere3D(rad)
+		box := sdf.Box3{Min: v3.Vec{X: -2 * rad, Y: -2 * rad, Z: -2 * rad}, Max: v3.Vec{X: 2 * rad, Y: 2 * rad, Z: 2 * rad}}
+		for _, rd := range []string{"v1", "v2"} {
+			cases = append(cases, sp{fmt.Sprintf("sphere %g in a box exactly 2x its size", rad), sph, box, 16, rd, 4.0 / 3 * math.Pi * rad * rad * rad})
+		}
+	}
+	for _, n := range []int{1100, 1300} {
+		for axis := 1; axis < 3; axis++ {
+			sz := v3.Vec{X: 0.5, Y: 0.5, Z: 0.5}
+			sz.Set(axis, 100)
+			rod, _ := sdf.Box3D(sz, 0)
+			bb := rod.BoundingBox()
+			box := bb.ScaleAboutCenter(1.3)
+			cases = append(cases, sp{fmt.Sprintf("rod 0.5x0.5x100 along axis %d", axis), rod, box, n, "v2", 25})
+		}
+	}
+	for i, k := range cases {
+		if i%nshards != shard {
+			continue
+		}
+		fmt.Printf("SPECIAL %s %s cells=%d\n", k.rd, k.name, k.cells)
+		w := &fieldSDF3{bb: k.box, fn: k.s.Evaluate}
+		ts := c19Render(k.rd, w, k.cells)
+		c.Eval(1)
+		cs := c19Case{i, k.rd, k.cells, k.name, k.box}
+		if len(ts) < 8 {
+			c.Violate("", fmt.Sprintf("dc-empty %s cells=%d %s: only %d triangles", k.rd, k.cells, k.name, len(ts)), cs)
+			continue
+		}
+		cell := k.box.Size().MaxComponent() / float64(k.cells)
+		rep := checkClosed3(ts, 1e-6*cell)
+		if rep.Unbalanced > 0 {
+			c.Violate("", fmt.Sprintf("dc-open %s cells=%d %s: %d unmatched directed edges (first %v) in %d triangles", k.rd, k.cells, k.name, rep.Unbalanced, rep.FirstBadEdge, rep.Triangles), cs)
+			continue
+		}
+		if !(rep.Volume > 0) {
+			c.Violate("", fmt.Sprintf("dc-orientation %s cells=%d %s: enclosed signed volume %g is not positive (true volume %g)", k.rd, k.cells, k.name, rep.Volume, k.vol), cs)
+			continue
+		}
+		worst := 0.0
+		for _, t := range ts {
+			for q := 0; q < 3; q++ {
+				if f := math.Abs(k.s.Evaluate(t[q])); f > worst {
+					worst = f
+				}
+			}
+		}
+		if worst > cell*math.Sqrt(3) {
+			c.Violate("", fmt.Sprintf("dc-far-vertex %s cells=%d %s: a vertex is %g from the surface, cell diagonal %g", k.rd, k.cells, k.name, worst, cell*math.Sqrt(3)), cs)
+			continue
+		}
+		c.Distinct(fmt.Sprintf("special/%s/%s/%d", k.rd, k.name, k.cells))
+	}
 }
